@@ -150,6 +150,16 @@ func RunDaemon(t *testing.T, sc *DaemonScenario, dump io.Writer) (res RunResult)
 						rest = append(rest, k)
 					}
 				}
+				// ... and a few of the chain store's puts right after them (what went out before it was stored)
+				var puts, others []int
+				for _, k := range rest {
+					if k-1 < len(kinds) && kinds[k-1] == "chain.Put" && len(puts) < 3 && k > 3 {
+						puts = append(puts, k)
+					} else {
+						others = append(others, k)
+					}
+				}
+				rest = append(puts, others...)
 				lo := append(first, rest...)
 				cr.At = lo[cr.AtIndex%ops]
 			}
@@ -511,6 +521,11 @@ func (e *daemonEngine) reshare(id string, p *ResharePlan) {
 		e.w.Heal()
 		e.lastFault = time.Now()
 	default:
+		if d := p.DownInExec - 1; d >= 0 && d < len(e.nodes) && e.nodes[d] != leader && e.nodes[d].up {
+			// a member that accepted is not there when the execution runs: the others complete without it
+			e.stopDaemon(e.nodes[d])
+			e.rec.Count("fault:member_down_during_execution", 1)
+		}
 		if err := e.cmd(leader, id, &pdkg.DKGCommand{Command: &pdkg.DKGCommand_Execute{Execute: &pdkg.ExecutionOptions{}}}); err != nil {
 			e.rec.Ev("reshare_execute_failed", leader.addr, "%v", err)
 			return
